@@ -64,6 +64,8 @@ LOOPS (second half of this file).
   `Option τ` (`none` = not yet bound); reading it is `getBound`: `UnboundLocalError` on `none`.
 * `b * k` with `b` a bool and `k` an int: `True` is 1, `False` is 0. `a ** e` on two ints (`ipow`): `a ^ e` when `e ≥ 0`; when `e < 0`
   Python returns a float, which cannot be typed: the error value `Err.type` (to be excluded by the tie's hypotheses).
+* `a >> k` on ints (`ishr`): the floor shift `Int.shiftRight` (so `-1 >> 1 == -1`), `ValueError` on a negative count; `abs` on an int
+  (`iabs`); `min` / `max` of ints (`imin` / `imax`, n-ary ones folded from the left: CPython's "first among the smallest / greatest").
 * `x in L` / `x not in L` on a list of ints / tuples of ints: `List.elem` with decidable equality (`contains`).
   `L.remove(v)`: `List.erase` (first occurrence), `ValueError` if absent.
 -/
